@@ -2,7 +2,7 @@
 (***************************************************************************)
 (* C16: the same argument list through the four routes.                    *)
 (***************************************************************************)
-EXTENDS PSlices
+EXTENDS PSpec
 
 \* the same argument list through the other three routes of C16
 RouteOp(k)  == IF k.e = "Sprint" THEN SPrint(k.ts) ELSE SPrintf(k.f, k.ts)
